@@ -162,12 +162,12 @@ def plans(ctx, m):
         P.append(dict(name="pairs-top", nv=2, w=8, consts=consts(m, Scope=top, VC1={"bare", "blank"}, K=2, NMax=1)))
         P.append(dict(name="triples-route", nv=2, w=10, consts=consts(m, Scope=ingress_side, VC1={"bare"}, K=3, NMax=1)))
         P.append(dict(name="triples-auth", nv=2, w=8, consts=consts(m, Scope=auth, VC1={"bare", "blank"}, K=3, NMax=1)))
-        P.append(dict(name="nm-route", nv=2, w=8, consts=consts(m, Scope=ingress_side, VC1={"bare", "bad", "quoted"}, K=2, NMax=1,
-                                                            SpMode="default", NmScope=set(m.ids), NmVC={"bare", "bad"})))
+        P.append(dict(name="nm-route", nv=2, w=8, consts=consts(m, Scope=auth, VC1={"bare"}, K=2, NMax=1, SpMode="default", NmScope=set(m.ids))))
         P.append(dict(name="nm-route1", nv=3, w=6, consts=consts(m, Scope=ingress_side, VC1={"bare", "bad", "blank", "ctrl"}, K=1,
                                                              NmScope=set(m.ids), NmVC={"bare", "bad", "quoted", "blank"}, Bases={"pull", "none"})))
         P.append(dict(name="nm-deliver", nv=2, w=6, consts=consts(m, Scope=m.under("r.deliver", "secrets", "vars", "defaults.deliver") | {"matcher", "r.deliver_concurrency"},
-                                                              VC1={"bare", "bad"}, K=2, NMax=1, Bases={"deliver"}, NmScope=set(m.ids), NmVC={"bare", "bad"})))
+                                                              VC1={"bare"}, K=2, NMax=1, Bases={"deliver"}, SpMode="default", NmScope=set(m.ids),
+                                                              NmVC={"bare", "bad"})))
         P.append(dict(name="nm-top", nv=2, w=6, consts=consts(m, Scope=top, VC1={"bare", "bad"}, K=1, NmScope=set(m.ids), NmVC={"bare", "bad"})))
         P.append(dict(name="channels", nv=2, w=8, consts=consts(m, Scope={"r.publish", "r.auth_basic", "ingress"}, K=1, MinR=0, MaxR=3,
                                                             ChForms=ALL_CHFORMS, ErrSet={"none", "dup_path"},
